@@ -45,7 +45,8 @@ HTTP = ["http503", "http429", "http500", "http502"]
 def generate(rng, tier, index):
     n_nodes = rng.choice([2, 3, 4, 5, 6, 8]) if tier == "quick" else rng.choice([2, 3, 4, 5, 6, 8, 10, 14])
     triples = gen.gen_graph(rng, n_nodes=n_nodes, n_classes=rng.randint(1, 3), n_props=rng.randint(1, 4),
-                            kinds=("node", "str", "int", "iri"), density=rng.choice([0.4, 0.6, 0.8]))
+                            kinds=("node", "str", "int", "iri", "iri2"), density=rng.choice([0.4, 0.6, 0.8]),
+                            twins=0)    # a plain string that looks like a number is outside C15's domain
     tp = gen.CUSTOM_TYPE if rng.random() < 0.12 else gen.RDF_TYPE
     triples = gen.retype(gen.ensure_class(triples), tp)
     target = gen.gen_target(rng, triples, allow_shape_map=True, type_prop=tp)
@@ -118,7 +119,7 @@ def _resolve(fault, trace):
     return n - 1
 
 
-def _endpoint_run(sim, scen, triples, cache, plan=(), cap_steps=None):
+def _endpoint_run(sim, scen, triples, cache, plan=(), cap_steps=None, retry_same_shaper=False):
     ep = SimEndpoint(sim, triples, row_seed=scen["row_seed"], canonical_rows=scen.get("canonical_rows", False))
     for f in plan:
         ep.plan.append(f)
@@ -127,8 +128,22 @@ def _endpoint_run(sim, scen, triples, cache, plan=(), cap_steps=None):
     kw = _kwargs(scen, url_endpoint=EP_URL)
     if not cache:
         kw["disable_endpoint_cache"] = True
-    r = run_once(kw)
-    return r, ep
+    if not retry_same_shaper:
+        return run_once(kw), ep
+    # faulted call, then heal the endpoint and call the SAME Shaper again
+    from ..world import new_shaper, call
+    holder = {}
+
+    def first():
+        holder["sh"] = new_shaper(kw)
+        return holder["sh"].shex_graph(string_output=True)
+    r = call(first)
+    retry = None
+    if r.kind == "exc" and "sh" in holder:
+        ep.plan = []
+        ep.outage = None
+        retry = call(lambda: holder["sh"].shex_graph(string_output=True), holder["sh"])
+    return r, ep, retry
 
 
 def _first_delivery_stream(ep):
@@ -237,7 +252,8 @@ def execute(scen, scratch):
                 budget = 20 * (len(trace) + 5) + 50
                 before = sum(sim.faults.values())
                 sleeps_before = sim.log.count("sleep")
-                f_res, ep_f = _endpoint_run(sim, scen, triples, cache=cache, plan=plan, cap_steps=budget)
+                f_res, ep_f, same_retry = _endpoint_run(sim, scen, triples, cache=cache, plan=plan, cap_steps=budget,
+                                                        retry_same_shaper=True)
                 runs += 1
                 fired = sum(sim.faults.values()) - before
                 verdicts.append(("faulted", scen["config"], f_res.brief(), fired))
@@ -262,6 +278,18 @@ def execute(scen, scratch):
                                                                                       "fired": fired}))
                     else:
                         sim.probes["%s_raised" % config] += 1
+                    # the SAME Shaper called again after the heal may keep raising, but if it returns a document
+                    # it is the right one ("never wrong data"; its recovery as such is C18's subject)
+                    if same_retry is not None:
+                        runs += 1
+                        if same_retry.kind == "ok":
+                            if same_retry.text != twin.text:
+                                violations.append(violation("outage", "same_shaper_after_heal_wrong_document",
+                                                            [sha(twin.text), sha(same_retry.text)]))
+                            else:
+                                sim.probes["same_shaper_recovered"] += 1
+                        else:
+                            sim.probes["same_shaper_still_raising"] += 1
                     # after heal a NEW Shaper satisfies oracle 1 (B-same as the fault-free twin)
                     h_res, _ = _endpoint_run(sim, scen, triples, cache=cache, cap_steps=budget)
                     runs += 1
